@@ -3,7 +3,7 @@
 Builds harness/driver.cpp + the library of the CURRENT tree with gcov instrumentation (no sanitizers, -O0) in a scratch
 directory outside /repo and /verif, runs the union of the quick (or thorough) streams of the given properties through it,
 and lists every branch of include/upa/*.h and src/*.cpp that no operation took — the places where a changed guard would go
-unnoticed by the correspondence.  Writes evidence/branchcov.json (summary + the list); removes the scratch directory.
+unnoticed by the correspondence.  Writes doc/branchcov.json (summary + the list); removes the scratch directory.
 usage: branchcov.py [--tier quick|thorough] [--props C01,C03,...] [--seed N] [--keep]"""
 import argparse, json, os, re, shutil, subprocess, sys, tempfile
 sys.path.insert(0, os.path.dirname(os.path.abspath(__file__)))
@@ -15,7 +15,7 @@ def main():
     ap.add_argument('--props', default=','.join(sorted(P.PROPS)))
     ap.add_argument('--seed', type=int, default=1)
     ap.add_argument('--keep', action='store_true')
-    ap.add_argument('--out', default=os.path.join(C.VERIF, 'evidence', 'branchcov.json'))
+    ap.add_argument('--out', default=os.path.join(C.VERIF, 'doc', 'branchcov.json'))
     a = ap.parse_args()
     repo = C.REPO
     d = tempfile.mkdtemp(prefix='upa_cov.')
